@@ -30,18 +30,24 @@ for root, _, fs in os.walk(os.path.join(src, 'demo')):
     for f in fs:
         demos.append(os.path.relpath(os.path.join(root, f), os.path.join(src, 'demo')))
 demo_pkgs = sorted({'./' + os.path.dirname(d) + '/' for d in demos})
+GOCTL_MOD = '/tmp/wt/scratch.alt.mod'
+if goctl:
+    open(GOCTL_MOD, 'w').write(open('/verif/standins/goctl.alt.mod').read().replace('=> /repo', '=> ' + wt))
+    shutil.copy('/verif/standins/goctl.alt.sum', '/tmp/wt/scratch.alt.sum')
 def modcwd(p):
     return (wt + '/tools/goctl', './' + p[len('./tools/goctl/'):]) if p.startswith('./tools/goctl/') else (wt, p)
+def modflag(p):
+    return ['-modfile=' + GOCTL_MOD] if p.startswith('./tools/goctl/') else []
 res = {}
 # (a) with change: build + existing tests
 run(['git', 'apply', patch])
-rc, out = run('go build ./... 2>&1 | tail -5', cwd=wt + ('/tools/goctl' if goctl else ''))
+rc, out = run(('go build -modfile=%s ./pkg/parser/api/... 2>&1 | tail -5' % GOCTL_MOD) if goctl else 'go build ./... 2>&1 | tail -5', cwd=wt + ('/tools/goctl' if goctl else ''))
 res['build_with_change'] = 'ok' if 'error' not in out and rc == 0 and not out.strip() else out[-300:]
 test_pkgs = sorted(set(pkgs) | set(demo_pkgs))
 ok = True; tout = ''
 for p in test_pkgs:
     cwd, pp = modcwd(p)
-    rc, out = run(['go', 'test', '-count=1', '-timeout', '20m', pp], cwd=cwd)
+    rc, out = run(['go', 'test'] + modflag(p) + ['-count=1', '-timeout', '20m', pp], cwd=cwd)
     tout += out[-400:]
     if rc != 0: ok = False
 res['existing_tests_with_change'] = 'PASS' if ok else 'FAIL: ' + tout[-600:]
@@ -58,9 +64,9 @@ def rundemo():
             if './' + os.path.dirname(d) + '/' == p and d.endswith('_test.go'):
                 names += re.findall(r'^func (Test\w+)\(', open(os.path.join(src, 'demo', d)).read(), re.M)
         if not names:
-            rc, out = run(['go', 'run', pp], cwd=cwd)
+            rc, out = run(['go', 'run'] + modflag(p) + [pp], cwd=cwd)
         else:
-            rc, out = run(['go', 'test', '-count=1', '-timeout', '10m', '-run', '^(' + '|'.join(names) + ')$', pp], cwd=cwd)
+            rc, out = run(['go', 'test'] + modflag(p) + ['-count=1', '-timeout', '10m', '-run', '^(' + '|'.join(names) + ')$', pp], cwd=cwd)
         o += out[-500:]
         if rc != 0: ok = False
     return ok, o
